@@ -68,8 +68,13 @@ def showHello (h : Hello) : String :=
 
 def toSpec (h : Hello) : Spec.Cookie.Params := ⟨h.vers, h.random, h.sessionId, h.suites, h.compression⟩
 
-def marshal (h : Hello) : Bytes := marshalWith Facts.dtlcp.cookieParamsLayout h
-def cookieInput (a p : Bytes) : Bytes := cookieInputWith Facts.dtlcp.cookieWrites a p
+/-- `marshalForCookie` / the HMAC input of `generateCookie` of the tree under test: the literal
+model definitions, tied to the functions translated from the Go source on every run by
+`Gotlcp.Tie.Cookie` (not interpreted from text-matching facts: a rename-only edit of the Go
+functions changes nothing here, a semantic edit breaks the tie proofs and disagrees with this
+prediction) -/
+def marshal (h : Hello) : Bytes := marshalForCookie h
+def cookieInput (a p : Bytes) : Bytes := cookieInputFramed a p
 
 def macLen : Nat := 32
 def rh : Nat := Facts.dtlcp.recordHeaderLen
